@@ -14,6 +14,7 @@
 //	for-import-vs-qualified  {% import "f" for N %}{{ N() }} (also period imports; other imported files declare N too)  ==  {% import q "f" %}{{ q.N() }}
 //	dead-code-removed     a page with renders inside code that never runs (if false, runtime-false if, else of a true if, macro never called)  ==  the page without it
 //	using-vs-macro        {% show E(itea); using %}BODY{% end using %}  ==  {% macro U_ %}BODY{% end macro %}{% show E(U_()) %}, E(x) = x | x + render "p" | render "p" + x
+//	local-rename          a file whose locals (captured by body-level macros, function literals, using bodies) are named like the package variables of the file it imports / that extends it  ==  the same file with fresh local names
 //	default-missing       {{ render "missing" default E }} == {{ E }}
 //	default-present       {{ render "f" default E }}       == {{ render "f" }}
 //
@@ -48,7 +49,7 @@ const (
 
 func (prop) Drive(d *core.Driver) error {
 	n := d.N(1200, 30000)
-	d.T.Rule = "a set of 1-5 partials of mixed formats in nested directories (rendering each other through relative and absolute paths, with same-named decoy files in other directories), optional imported libraries with 1-3 macros (with/without parameters, package variables, calling each other) is generated; one of eleven rewrites produces the second file set; both are built and run with the same globals (strings holding < & \" ', ints, an HTML value, a slice). distinct_nontrivial counts distinct (relation, formats involved / import form, outcome class, whether nested renders, macros calls, conversions occurred) signatures among pairs where both sides produced output, plus agreeing-error signatures"
+	d.T.Rule = "a set of 1-5 partials of mixed formats in nested directories (rendering each other through relative and absolute paths, with same-named decoy files in other directories), optional imported libraries with 1-3 macros (with/without parameters, package variables, calling each other) is generated; one of twelve rewrites produces the second file set; both are built and run with the same globals (strings holding < & \" ', ints, an HTML value, a slice). distinct_nontrivial counts distinct (relation, formats involved / import form, outcome class, whether nested renders, macros calls, conversions occurred) signatures among pairs where both sides produced output, plus agreeing-error signatures"
 	d.T.Assumptions = []string{
 		"text atoms start and end with a non-space byte, so the documented removal of statement-only lines cannot make the two sides differ",
 		"globals are declared with values (the declared-without-value path is C17)",
